@@ -4,7 +4,7 @@
 # simulated file layer (short reads, EIO at the k-th read) and with LPC errors injected into the master applies made during
 # compilation.  After every compilation a fixed probe program is compiled again: its structure and results must be what
 # they were at boot.
-import re, hashlib
+import re, hashlib, os
 from ..core import Plan, Violation, generic_crash_violations, enc, dec
 from ..world import *
 from . import c18, c07
@@ -51,13 +51,36 @@ def _valid_sources(rng):
 
 
 def _damage(rng, text, k):
-    kinds = ['longchain', 'litlocals', 'efunglobal', 'efunglobal', 'intmin', 'efunlocal', 'efunlocal', 'redeclare', 'redeclare', 'del', 'ins', 'dup', 'trunc', 'unstr', 'uncomment', 'untext', 'unlit', 'if', 'endif', 'else', 'defself', 'defmutual', 'macroargs', 'incself', 'incmissing',
+    kinds = ['longchain', 'litlocals', 'widestr', 'scratch', 'inhlong', 'incmacro', 'inclong', 'manystrings', 'bigprog', 'incself2', 'efunglobal', 'efunglobal', 'intmin', 'efunlocal', 'efunlocal', 'redeclare', 'redeclare', 'del', 'ins', 'dup', 'trunc', 'unstr', 'uncomment', 'untext', 'unlit', 'if', 'endif', 'else', 'defself', 'defmutual', 'macroargs', 'incself', 'incmissing',
              'incdeep', 'litdeep', 'locals', 'args', 'strings', 'funcs', 'longline', 'longident', 'longstr', 'dupfun', 'conflict', 'random', 'nul', 'high', 'inhmissing', 'inhlate', 'superunknown', 'defprobe', 'pragma', 'unlit3', 'unlit3', 'iffatal']
     kind = rng.choice(kinds)
+    if os.environ.get('C02_ONLY_KIND'): kind = os.environ['C02_ONLY_KIND']
     n = len(text)
     pos = rng.randint(0, max(0, n - 1))
     nl = text.find('\n', pos) + 1 or n
-    if kind == 'litlocals':
+    if kind == 'widestr':
+        # a wide string literal; later files (the probe among them) hold plain strings with bytes that are no valid UTF-8
+        t = text + '\nmixed zw() { return L"abc"; }\n'
+    elif kind == 'scratch':
+        # the lexer's scratch pad nearly full (nested calls of long unknown names) and then a string full of unknown escapes
+        m = rng.choice((10, 19, 20, 21, 30)); nm = 'u' * rng.choice((100, 200, 250))
+        t = text + '\nmixed zsc() { return ' + ''.join('%s%d(' % (nm, j) for j in range(m)) + '"' + '\\q' * rng.choice((60, 120, 400)) + '"' + ')' * m + '; }\n'
+    elif kind == 'inhlong':
+        parts = ' '.join('"%s"' % ('a' * 900) for _ in range(rng.choice((1, 3, 4))))
+        t = 'inherit "%s" %s;\n' % (rng.choice(('x//', '/x//y', 'x/')), parts) + text
+    elif kind == 'incmacro':
+        t = rng.choice(('#define ZA ZA\n#include ZA\n', '#define ZA ZB\n#define ZB ZA\n#include ZA\n', '#define ZA "/x/deep0.h"\n#include ZA\n', '#define ZA <\n#include ZA\n')) + text
+    elif kind == 'inclong':
+        t = '#include "%s"\n' % ('h' * rng.choice((300, 920, 1000, 1100))) + text
+    elif kind == 'manystrings':
+        m = rng.choice((20000, 33000, 40000)); per = 250
+        t = text + ''.join('\nmixed zms%d() { return ({ %s }); }' % (b, ', '.join('"m%d"' % i for i in range(b * per, min(m, (b + 1) * per)))) for b in range((m + per - 1) // per)) + '\n'
+    elif kind == 'bigprog':
+        nf = rng.choice((20, 40)); per = rng.choice((250, 450))
+        t = text + ''.join('\nint zbig%d(int i) {\n%s return i; }' % (f, ''.join(' i = i + %d;\n' % (12345 + j) for j in range(per))) for f in range(nf)) + '\nint zlast() { return zbig%d(1); }\n' % (nf - 1)
+    elif kind == 'incself2':
+        t = '#include "/x/self2.h"\n' + text
+    elif kind == 'litlocals':
         # function literals nested two to four deep, each with nearly as many locals as a function may have: the compiler's
         # tables of local names grow while they are in use
         depth = rng.choice((2, 3, 3, 4)); nl = rng.choice((20, 23, 24))
@@ -170,6 +193,8 @@ def gen(rng, tier, i):
     p.opt('fault_exempt_master', 0)
     files, mains = _valid_sources(rng)
     for name, text in sorted(files.items()): p.file(name, text)
+    p.file('x/utf.c', 'string zu() { return "\\xff\\xfe\\x80"; }\n')     # a plain string whose bytes are no valid UTF-8: legal, whatever was compiled before
+    p.file('x/self2.h', '#include "/x/self2.h"\n#include "/x/self2.h"\n')
     for d in range(12): p.file('x/deep%d.h' % d, '#include "/x/deep%d.h"\n' % (d + 1) if d < 11 else 'int zdeep;\n')
     p.cycle(connect(0, 0))
     p.cycle(send(0, 'do name u0;comp p0 /probe\r\n'))
@@ -199,7 +224,7 @@ def gen(rng, tier, i):
         elif r < 0.47: steps.append(fault(rng.choice((0, 0, 0, 1)), 'compileroom:%d' % rng.choice((0, 1, 2, 3, 4, 6))))
         steps.append(send(0, 'do comp %d %s\r\n' % (k, target)))
         p.cycle(*steps)
-        p.cycle('fsopt 0 -1', 'fault -1 error', send(0, 'do comp p%d /probe\r\n' % (k + 1)))
+        p.cycle('fsopt 0 -1', 'fault -1 error', send(0, 'do comp u%d /x/utf;comp p%d /probe\r\n' % (k + 1, k + 1)))
         p.cycle(send(0, 'do xco p%d /probe run;pinfo /probe;xreload /probe\r\n' % (k + 1)))
     p.idle(1)
     p.meta['kinds'] = kinds
@@ -226,12 +251,16 @@ def check(plan, res):
         elif w[0] == 'COMP':
             cid = w[1]; ok = w[3] == 'ok=1'; err = w[4][4:] if len(w) > 4 else '0'
             comp[cid] = (ok, err, list(pending_errs))
-            if not cid.startswith('p'):
+            if not cid.startswith('p') and not cid.startswith('u'):
                 kd = kinds[int(cid)] if int(cid) < len(kinds) else '?'
                 hard = [x for x in pending_errs if 'Warning' not in x]
                 if not ok and err == '0' and not hard:
                     bad('outcome', 'compilation %s (%s) yielded no object and reported no error' % (cid, kd), 'outcome/silent-failure')
             pending_errs = []
+    for e in res.events:
+        if e.kind == 'R' and e.rest.startswith('COMP u') and ' ok=0' in e.rest:
+            bad('probe', 'a file with a plain string literal of non-UTF-8 bytes no longer compiles: %s' % e.rest[:160], 'probe/plain-string-refused')
+            break
     # the probe: structure and result identical after every compilation
     probes = [e.rest for e in res.events if e.kind == 'R' and e.rest.startswith('PINFO /probe ')]
     runs = [e.rest.split(' ', 2)[2] for e in res.events if e.kind == 'R' and e.rest.startswith('XR p')]
@@ -263,7 +292,7 @@ def check(plan, res):
 def summarize(plan, res):
     oc = []
     for e in res.events:
-        if e.kind == 'R' and e.rest.startswith('COMP ') and not e.rest.split(' ')[1].startswith('p'):
+        if e.kind == 'R' and e.rest.startswith('COMP ') and not e.rest.split(' ')[1].startswith(('p', 'u')):
             w = e.rest.split(' ')
             oc.append((int(w[1]), w[3] == 'ok=1'))
     kinds = plan.meta['kinds']
